@@ -116,6 +116,39 @@ def seq_last_is(xs, k, v):
     return len(xs) >= k and xs[-k] is v
 
 
+def set_added(new, old, x):
+    """new == old | {x}"""
+    return set(new) == set(old) | {x}
+
+
+def set_removed(new, old, x):
+    """new == old - {x}"""
+    return set(new) == set(old) - {x}
+
+
+def sets_disjoint(*sets):
+    """The given sets are pairwise disjoint."""
+    return all(a.isdisjoint(b) for i, a in enumerate(sets) for b in sets[i + 1:])
+
+
+def distinct(*xs):
+    return all(x != y for i, x in enumerate(xs) for y in xs[i + 1:])
+
+
+def set_ite(c, a, b):
+    """The set a if c else b, as a *value* (a fresh set: identity of a / b is not preserved)."""
+    return set(a) if c else set(b)
+
+
+def new_object(cls, fields):
+    """An instance of cls with exactly the given attributes (no __init__ run): used by spec code to
+    build a replica state directly."""
+    o = object.__new__(cls)
+    for k, v in fields.items():
+        object.__setattr__(o, k, v)
+    return o
+
+
 INTRINSICS = {}
 for _n, _f in list(globals().items()):
     if callable(_f) and not _n.startswith('_') and getattr(_f, '__module__', None) == __name__:
